@@ -172,6 +172,23 @@ def _const_text(fn: ast.AST, e: ast.AST) -> Optional[str]:
     return None
 
 
+def _left_kind(left_txt: str) -> Optional[str]:
+    """'strong' = a negative look-behind whose class excludes word characters, '.' and '#' (the characters that can
+    precede a producer name inside a longer reference), or a start-of-string alternative; 'word' = plain \\b."""
+    import re as _re
+    m = list(_re.finditer(r"\(\?<!\[([^\]]*)\]\)\s*$", left_txt))
+    if m:
+        cls = m[-1].group(1)
+        if "\\w" in cls and "." in cls and "#" in cls:
+            return "strong"
+        return "word"
+    if left_txt.endswith("^") or "(?:^|" in left_txt:
+        return "strong"
+    if left_txt.endswith("\\b") or "(?<=" in left_txt or "(?<!" in left_txt:
+        return "word"
+    return None
+
+
 def pattern_anchoring(expr: ast.AST, fn: Optional[ast.AST] = None, binds: Optional[Dict[str, ast.AST]] = None) -> Dict[str, object]:
     """Classify one pattern-building expression."""
     binds = binds or {}
@@ -197,6 +214,7 @@ def pattern_anchoring(expr: ast.AST, fn: Optional[ast.AST] = None, binds: Option
         first = fmt.split("%s")[0] if "%s" in fmt else fmt
         last = fmt.split("%s")[-1] if "%s" in fmt else ""
         info["left"] = first.endswith("\\b") or any(a in first for a in ("(?<!", "(?<=", "(?:^|")) or first.endswith("^")
+        info["left_kind"] = _left_kind(first)
         info["right"] = any(last.startswith(a) for a in RIGHT_ANCHORS)
         return info
     parts = _flatten_concat(expr)
@@ -214,6 +232,7 @@ def pattern_anchoring(expr: ast.AST, fn: Optional[ast.AST] = None, binds: Option
     left_txt = "".join(t for t in texts[:i0] if t is not None)
     right_txt = "".join(t for t in texts[i1 + 1:] if t is not None)
     info["left"] = left_txt.endswith("\\b") or any(a in left_txt for a in ("(?<!", "(?<=", "(?:^|")) or left_txt.endswith("^")
+    info["left_kind"] = _left_kind(left_txt)
     info["right"] = right_txt.startswith("\\b") or any(right_txt.startswith(a) for a in ("(?!", "(?=", "(?:$|", "$"))
     return info
 
